@@ -5,6 +5,8 @@
 #include "dsp_util.h"
 #include "simrun.h"
 
+#include <memory>
+
 namespace vf {
 namespace {
 
@@ -113,6 +115,11 @@ void run_tuner(const Op& op, Result& res) {
     const auto xi = gen_signal(uint32_t(op.iarg(3)) ^ 0x55aau, size_t(n));
     set_cur_opf("C14 Tuner fs=%lld f=%.6g n=%lld", static_cast<long long>(fs), f, static_cast<long long>(n));
     dsplib::Tuner tuner(int(fs), f);
+    // object-lifetime event: at one frame boundary a COPY of the tuner is made and fed the same frames from then on
+    std::unique_ptr<dsplib::Tuner> twin;
+    const uint64_t hz = mix(uint64_t(op.iarg(5)), 0x7717);
+    const size_t copy_at = (frames.size() >= 2 && hz % 4 == 0) ? 1 + size_t((hz >> 8) % (frames.size() - 1)) : size_t(-1);
+    size_t fidx = 0;
     int64_t k = 0;
     bool wrap_inside = false;
     bool wrap_on_boundary = false;
@@ -121,9 +128,23 @@ void run_tuner(const Op& op, Result& res) {
         for (int i = 0; i < fr; ++i) {
             x[i] = cmplx_t{xr[size_t(k + i)], xi[size_t(k + i)]};
         }
+        if (fidx++ == copy_at) {
+            twin = std::make_unique<dsplib::Tuner>(tuner);
+            res.inc("fault.copied_mid_stream");
+        }
         arr_cmplx y;
         try {
-            y = tuner.process(x);
+            if (twin) {
+                const arr_cmplx y2 = twin->process(x);
+                y = tuner.process(x);
+                if (y2.size() != y.size() || std::memcmp(y2.data(), y.data(), size_t(y.size()) * sizeof(cmplx_t)) != 0) {
+                    res.fail("C14:tuner-copy", fmt("Tuner(fs=%lld, f=%.17g): a copy made at sample %lld and fed the same frames deviates from the original", static_cast<long long>(fs), f,
+                                                   static_cast<long long>(k)));
+                    return;
+                }
+            } else {
+                y = tuner.process(x);
+            }
         } catch (const std::exception& e) {
             res.fail("C14:tuner-exception", std::string("Tuner::process threw: ") + e.what());
             return;
@@ -199,11 +220,30 @@ void run_hilbert(const Op& op, Result& res) {
     const auto x = gen_signal(uint32_t(op.iarg(3)), size_t(n));
     int64_t k = 0;
     bool lt_mem = false;
+    std::unique_ptr<dsplib::HilbertFilter> twin;
+    const uint64_t hz = mix(uint64_t(op.iarg(5)), 0x4117);
+    const size_t copy_at = (frames.size() >= 2 && hz % 4 == 0) ? 1 + size_t((hz >> 8) % (frames.size() - 1)) : size_t(-1);
+    size_t fidx = 0;
     for (int fr : frames) {
         lt_mem |= (fr < delay);
+        if (fidx++ == copy_at) {
+            twin = std::make_unique<dsplib::HilbertFilter>(flt);
+            res.inc("fault.copied_mid_stream");
+        }
         arr_cmplx y;
         try {
-            y = flt.process(to_arr(x.data() + k, size_t(fr)));
+            if (twin) {
+                // the copy is fed first: if copies shared state, the original's delay line would be advanced twice
+                const arr_cmplx y2 = twin->process(to_arr(x.data() + k, size_t(fr)));
+                y = flt.process(to_arr(x.data() + k, size_t(fr)));
+                if (y2.size() != y.size() || std::memcmp(y2.data(), y.data(), size_t(y.size()) * sizeof(cmplx_t)) != 0) {
+                    res.fail("C14:hilbert-copy", fmt("HilbertFilter(flen=%lld): a copy made at sample %lld and fed the same frames deviates from the original", static_cast<long long>(flen),
+                                                     static_cast<long long>(k)));
+                    return;
+                }
+            } else {
+                y = flt.process(to_arr(x.data() + k, size_t(fr)));
+            }
         } catch (const std::exception& e) {
             res.fail("C14:hilbert-exception", std::string("HilbertFilter::process threw: ") + e.what());
             return;
